@@ -79,7 +79,10 @@ MODEL_QUERY = {'loops': 'cg'}
 # process-wide settings toggled (and toggled back) inside histories: name -> alternative value
 SETTING_ALTS = {'state.current_sign_convention': 'active', 'state.zero_initial_conditions': True,
                 'state.loose_units': False, 'state.show_units': True, 'state.canonical_units': True,
-                'state.warn_subs': True, 'state.warn_unknown_symbol': True}
+                'state.warn_subs': True, 'state.warn_unknown_symbol': True,
+                # the one setting a module of the netlist layer reads (copied into every instance at construction; default of
+                # matrix_solve): it can change the FORM of a result, not its value -- results are compared by value
+                'config.solver_method': 'LU'}
 
 
 class Timeout(Exception):
@@ -945,16 +948,19 @@ class History:
         """toggle a process-wide setting, ask a query under it (its answer legitimately depends on the setting and is not
         compared), toggle it back: no trace may remain -- every later observation is compared with a fresh rebuild"""
         owner, attr = name.split('.', 1)
-        obj = self.state
-        old = getattr(obj, attr)
+        # `state.<x>` lives on the State object; a `config.<x>` constant is also bound by name in the modules that import it
+        objs = [self.state] if owner == 'state' else [sys.modules[m] for m in ('lcapy.config', 'lcapy.netlist') if hasattr(sys.modules.get(m), attr)]
+        olds = [getattr(o, attr) for o in objs]
         alt = SETTING_ALTS[name]
         c = self.insts[i]
         self.ops.append(('setting', name, i, q) if arg is None else ('setting', name, i, q, arg))
-        setattr(obj, attr, alt)
+        for o in objs:
+            setattr(o, attr, alt)
         try:
             self.R.query(c, q, arg)
         finally:
-            setattr(obj, attr, old)
+            for o, v in zip(objs, olds):
+                setattr(o, attr, v)
         # the query under the toggled setting went through the memo layer like any other
         self.ops.append(('query1', i, q))
         self.setting_touched = name
@@ -1871,6 +1877,13 @@ def run(chk, replay=None):
     cfgline = drv.ask1('c16.cfg')
     chk.coverage['model_config'] = cfgline
     cfg = dict(t.split('=') for t in cfgline.split())
+    # every query asked has a row in the generated tables (theorem harness_queries_have_rows); those whose row is empty read
+    # no memo slot: their history independence is the `structural` half of the refinement theorems + the oracle
+    rows = {q: drv.ask1('c16.reads ' + q) for q in asked}
+    for q, r in rows.items():
+        if r == 'unknown-query':
+            chk.unexplained('broken-obligation', 'query-without-table-row:' + q, 'the harness asks a query the generated tables have no row for')
+    chk.coverage['queries_reading_no_memo_slot'] = sorted(q for q, r in rows.items() if r == '-')
     quick = chk.tier == 'quick'
     R = Real()
     rng = chk.rng
